@@ -1,2 +1,3 @@
 import PynGen.NpzKeys
 import PynGen.UnitSites
+import PynGen.InplaceSites
